@@ -51,6 +51,9 @@ type SpaceKeeper struct {
 
 func (sk *SpaceKeeper) OnStart() error {
 	sk.quit = make(chan struct{})
+	// count the plotter before it is started, so that a Stop right after
+	// Start waits for it instead of leaving it behind
+	sk.wg.Add(1)
 	go sk.spacePlotter()
 	go sk.fileWatcher()
 	logging.CPrint(logging.INFO, "spaceKeeper started")
